@@ -170,11 +170,18 @@ Section Run.
     match r_state st with
     | MRunning =>
         if forallb (fun p => null (snd p)) (r_queue st) then
-          let inv := sw_inval fixed || (0 <? r_changed st) in   (* Switch.always_inval_fixed: the repaired code always invalidates *)
+          (* Switch.always_inval_fixed: the repaired code always invalidates.  The invalidation is "at sequence
+             endSeq = the database's sequence counter", and an invalidation sequence of 0 means NOT invalidated: on a
+             database in which no sequence was ever allocated -- no document was ever written -- the call changes
+             nothing.  The counter is positive as soon as a document has been mutated ([r_clock]) or a principal document
+             has been given a sequence (updateAllPrincipalsSequences runs just before). *)
+          let pseq' := if r_regen st && r_hasall st then pseqs else r_pseq st in
+          let inv := (sw_inval fixed || (0 <? r_changed st)) &&
+                     ((0 <? r_clock st) || (0 <? r_changed st) || existsb (fun s => 0 <? s) pseq') in
           mkR (r_docs st) (r_idx st) (r_clock st) MCompleted (r_cols st) (r_changed st) (r_last st) (r_rid st)
               (r_regen st) (r_hasall st) [] (r_last st) (r_changed st)
               (if inv then invalidate_all (r_ps st) else r_ps st)
-              (if r_regen st && r_hasall st then pseqs else r_pseq st)
+              pseq'
               (if inv then r_log st ++ [allcols] else r_log st) (r_sel st) (if inv then false else r_dirty st)
               (if r_regen st && r_hasall st then r_alloc st ++ pseqs else r_alloc st)
         else st
